@@ -540,6 +540,12 @@ func (r *Run) finishShard() {
 func (r *Run) RunShard(name string, memLimitMB int, extraEnv []string) {
 	args := []string{"--shard", name, r.Tier}
 	cmd := exec.Command(os.Args[0], args...)
+	if memLimitMB > 0 {
+		// hard address-space limit: an allocation driven by untrusted input must fail fast (Go's
+		// "out of memory" fatal error is unrecoverable and would otherwise take the whole sandbox along)
+		sh := fmt.Sprintf("ulimit -v %d; exec \"$0\" \"$@\"", memLimitMB*1024)
+		cmd = exec.Command("/bin/sh", append([]string{"-c", sh, os.Args[0]}, args...)...)
+	}
 	budget := int(time.Until(r.deadline).Seconds())
 	if budget < 5 {
 		budget = 5
